@@ -254,6 +254,11 @@ func fieldStoresAny(f *ssa.Function, typeName, field string) []*ssa.Store {
 // for every call in f that yields an error, (a) the error value is not dropped, and (b) every success return
 // (nil error) reachable after the call is reached only through the edge err == nil. skip may exempt calls.
 func checkErrorsReturned(c *Ctx, rule string, f *ssa.Function, errIdx int, skip func(*ssa.Call) bool) {
+	checkErrorsReturnedX(c, rule, f, errIdx, skip, nil)
+}
+
+// checkErrorsReturnedX additionally accepts edges on which the error is legitimately absorbed (e.g. errors.Is(err, io.EOF)).
+func checkErrorsReturnedX(c *Ctx, rule string, f *ssa.Function, errIdx int, skip func(*ssa.Call) bool, absorbed func(ev ssa.Value) EdgePred) {
 	succ := successReturns(f, errIdx)
 	for _, in := range instrs(f) {
 		call, ok := in.(*ssa.Call)
@@ -296,7 +301,11 @@ func checkErrorsReturned(c *Ctx, rule string, f *ssa.Function, errIdx int, skip 
 				}
 				return has
 			}
-			if pathExists(f, call, r, factNil(isErr, true), nil) {
+			cut := factNil(isErr, true)
+			if absorbed != nil {
+				cut = anyFact(cut, absorbed(ev))
+			}
+			if pathExists(f, call, r, cut, nil) {
 				ok = false
 				why = "a success return is reachable after the call without passing the test err == nil (" + c.P.InstrPos(r) + ")"
 			}
